@@ -127,7 +127,18 @@ namespace c12
   template<typename Shape_> inline void extract_all(Parted<Shape_>& P, const FEAT::Adjacency::Graph& ear, int nranks)
   {
     P.patch.clear(); P.comm.assign((size_t)nranks, {});
+    auto twin = P.base->clone_unique();   // for create_patch_meshpart below
     for(int r = 0; r < nranks; ++r) P.patch.push_back(P.base->extract_patch(P.comm[size_t(r)], ear, r));
+    // RootMeshNode::create_patch_meshpart registers the patch mesh-part of a rank WITHOUT extracting it (what a parent layer does for the other
+    // children): it must describe the same sub-mesh, in every dimension, as the part that extract_patch registered
+    for(int r = 0; r < nranks; ++r)
+    {
+      twin->create_patch_meshpart(ear, r); const PartOf<Shape_>* a = twin->get_patch(r); const PartOf<Shape_>* b = P.base->get_patch(r);
+      VF_CHECK(a != nullptr && b != nullptr, "create_patch_meshpart / extract_patch registered no patch mesh-part for rank " << r);
+      const FlatPart fa = flatten_part<Shape_>(*a), fb = flatten_part<Shape_>(*b);
+      for(int d = 0; d <= Shape_::dimension; ++d) { std::set<FEAT::Index> sa(fa.trg[(size_t)d].begin(), fa.trg[(size_t)d].end()), sb(fb.trg[(size_t)d].begin(), fb.trg[(size_t)d].end());
+        VF_CHECK(sa.size() == fa.trg[(size_t)d].size() && sa == sb, "create_patch_meshpart(rank " << r << "): " << fa.trg[(size_t)d].size() << " entities of dimension " << d << " (" << sa.size() << " distinct), the patch mesh-part registered by extract_patch has " << sb.size()); }
+    }
   }
 
   template<typename Shape_> inline void refine_all(Parted<Shape_>& P)
